@@ -47,7 +47,7 @@ def judge(case, out):
     script = head.split()[1] if blockon else ""
     toks = norm(out).split()
     fails = []
-    if "PANIC" in toks or "BAD" in toks:
+    if "PANIC" in toks or "BAD" in toks or "TIMEOUT" in toks:
         return ["panic"]
     # replay the observable protocol
     stop_after_reset = False
